@@ -166,7 +166,13 @@ task_union.contract_fn = "heavy.ImmutableKnotVector.__or__"
 
 
 def tasks(tier, seed):
-    return [(task_union, (js,)) for js in tier_joint(tier)]
+    from ..pyvc.driver import verify
+    from ..contracts import facade, facade2
+    # engine V, all vectors: `U | V` / `U & V` return a NEW object on the operands' interval and leave the operand's payload in place; `|=` / `&=`
+    # install the result atomically (the values of the merge are decided per joint shape below)
+    ts = [(verify, (c, m, q, v)) for c, m, q, v in facade2.ALL if c.name.endswith(("__or__", "__and__"))]
+    ts += [(verify, (c, m, q, v)) for c, m, q, v in facade.ALL if c.name.endswith(("__ior__", "__iand__"))]
+    return ts + [(task_union, (js,)) for js in tier_joint(tier)]
 
 
 def replay(o):
@@ -204,7 +210,7 @@ def replay(o):
 
 
 INFO = dict(
-    assumptions=A.S_COMMON, trusted_base=A.TRUSTED, min_obligations=100, level="other",
+    assumptions=A.S_COMMON + [A.A10, A.A12], trusted_base=A.TRUSTED, min_obligations=100, level="other",
     explanation="C17: U|V and U&V against the closed-form multiplicity merge for every joint shape (degrees, per-knot multiplicity pairs, "
                 "shared and distinct knots), commutativity, idempotence, operands untouched, facade operators, different intervals refused.",
     functions=["heavy.ImmutableKnotVector.__or__", "heavy.ImmutableKnotVector.__and__", "knotspace.KnotVector.__or__/__and__/__ior__/__iand__"],
